@@ -384,14 +384,22 @@ def main(tier, seed, replay=None):
     try:
         c.boot_all()
         node = c.nodes['n1']
-        with c.enter('n1'):
+        if True:
             for i, d in enumerate(docs, 1):
                 path = os.path.join(sc, 'rules_doc.xml')
                 with open(path, 'w') as f:
                     f.write(render(d))
                 e = exp_docs[i]
                 for mode in ('xsd', 'plain'):
-                    res = resolve_real(node.supvisors, path, d['qapp'], d['qproc'], mode == 'plain')
+                    with c.enter('n1'):          # (one watchdog period per resolution, not for the whole loop)
+                        res = resolve_real(node.supvisors, path, d['qapp'], d['qproc'], mode == 'plain')
+                    if c.hung:
+                        v.violation(f'rule lookup did not terminate ({mode}) for {d["qapp"]}:{d["qproc"]}',
+                                    {'doc': d, 'mode': mode})
+                        docs, opts = [], []          # the instance is gone: report what was found
+                        break
+                if not docs:
+                    break
                     n_eval += 1
                     if res[0] == 'refused':
                         refused[mode] += 1
@@ -418,7 +426,8 @@ def main(tier, seed, replay=None):
                             v.violation(f'application rules of {d["qapp"]} ({mode}): code {app}, specification admits '
                                         f'{e["app"]}; document:\\n{render(d)[:1500]}', {'doc': d, 'mode': mode})
             for i, o in enumerate(opts, 1):
-                got = effective_real(node.supervisord, node.logger, o)
+                with c.enter('n1'):
+                    got = effective_real(node.supervisord, node.logger, o)
                 n_eval += 1
                 want = exp_opts[i]
                 if 'error' in got:
